@@ -15,6 +15,7 @@ REAL = "real code from the /repo working tree"
 PROPERTIES = {}
 NOT_APPLICABLE = {}
 ENGINE_KINDS = {
+    "system": "System recognition on generated files: scheduler-chosen topology load order with observers between loads and injected failing loads; instance list derived from the file as oracle",
     "alias": "operation histories over an object graph (molecules, copies, deep copies, residues, atoms, live views, System hand-outs through real files, Alignment-stored molecules) checked after every operation against an aliasing model",
     "grosys": "one SystemGro shared by several live iterators and one-shot indexed/sliced accesses; seeded scheduler decides which consumer steps next; independent parse of the file as oracle",
     "mc": "Alignment.align_molecules -> minimize_molecules -> python Monte-Carlo loop under the random seam (seeded stream + override script); call-through monitors on Chi2Calculator / accept_metropolis / move_mol_atom / find_atom_random_displ / rotation_matrix; reference model of the loop bookkeeping",
@@ -330,3 +331,21 @@ _reg("C18", engine="alias", level="exploration",
                  "Alignment setters": REAL},
      schedule_dimension="order of copy / view / mutate operations over the object graph",
      probes=["rigid_op_on_multi_residue", "assignment_through_view", "system_handout", "alignment_stored", "names_changed_on_unshared_topology"])
+
+
+_reg("C11", engine="system", level="exploration",
+     runs={"quick": 3000, "thorough": 200000}, block=25,
+     technique="seeded load-order schedules with interleaved observers and injected failing loads on one System; all observers cross-checked against the instance list the generator recorded",
+     level_text=("Sampled worlds (1..4 species of 1..3 residues with repeated residues inside a species, equal residue names with "
+                 "different sizes, an unloaded solvent) and files of 0..6 (thorough: up to 40) molecules in any order with solvent "
+                 "interspersed.  The schedule is the order of topology loads (constructor arguments, add_ftop by path / open file, "
+                 "add_molecule_top), any subset, with len / composition / every index incl. negative / slices / iteration executed "
+                 "between loads, and failing loads (species absent from the file, unrelated shipped topology, duplicate load, same "
+                 "signature with other atom names) injected anywhere: they must raise and leave every observer unchanged."),
+     level_note=("Residue kinds have pairwise distinct (name, atom count) signatures and no kind belongs to two species (how "
+                 "'distinct residue signatures' is read).  Which exception an out-of-range index raises is not checked.  Trusted: "
+                 "the generator's record of what it wrote."),
+     rule="one run = one file + one load/observe schedule; non-trivial = schedule ran to the end; distinct = distinct (operation, outcome) sequences",
+     components={"System / SystemGro": REAL, "MoleculeTop / read_topology / ItpFile": REAL, "Molecule": REAL, "files": "real files on tmpfs"},
+     schedule_dimension="order of topology loads, position of observers and of failing loads",
+     probes=["second_or_later_load"])
